@@ -472,6 +472,45 @@ pub fn flat(ts: TokenStream) -> String {
     o.join(" ")
 }
 
+/// Like `flat`, but a punctuation character that is glued to the next one (`==`, `->`, `..=`) is printed glued:
+/// whether `a == b` reaches `write!` as `a == b` or as `a = = b` is visible in this rendering.
+pub fn flat_joint(ts: TokenStream) -> String {
+    fn go(ts: TokenStream, o: &mut String) {
+        let mut glue = false;
+        for t in ts {
+            if !glue && !o.is_empty() {
+                o.push(' ');
+            }
+            glue = false;
+            match t {
+                proc_macro2::TokenTree::Group(g) => {
+                    let (a, b) = match g.delimiter() {
+                        proc_macro2::Delimiter::Parenthesis => ("(", ")"),
+                        proc_macro2::Delimiter::Brace => ("{", "}"),
+                        proc_macro2::Delimiter::Bracket => ("[", "]"),
+                        proc_macro2::Delimiter::None => ("", ""),
+                    };
+                    o.push_str(a);
+                    go(g.stream(), o);
+                    if !b.is_empty() {
+                        o.push(' ');
+                        o.push_str(b);
+                    }
+                }
+                proc_macro2::TokenTree::Punct(p) => {
+                    o.push(p.as_char());
+                    // a separator never forms a multi-character operator with what follows
+                    glue = p.spacing() == proc_macro2::Spacing::Joint && !matches!(p.as_char(), ',' | ';');
+                }
+                other => o.push_str(&other.to_string()),
+            }
+        }
+    }
+    let mut o = String::new();
+    go(ts, &mut o);
+    o
+}
+
 fn mode_args(_args: &[String]) {
     use syn::parse::Parser;
     use syn::punctuated::Punctuated;
@@ -588,7 +627,7 @@ fn mode_args(_args: &[String]) {
         // end-to-end: the same list inside a real attribute
         let nargs = reference.len();
         let trailing = src.trim_end().ends_with(',');
-        let sep = if nargs == 0 || trailing { "" } else { "," };
+        let sep = if nargs == 0 || trailing { "" } else { " ," };
         let item = format!("#[display(\"{{{}:?}}\", {}{} __probe)] struct S<T> {{ __probe: T }}", nargs, src, sep);
         let (probe, reemit) = match expand_one("Display", &item) {
             Exp::Ok(t) => {
@@ -607,9 +646,20 @@ fn mode_args(_args: &[String]) {
                     .unwrap_or(false);
                 let args_flat = flat(ts.clone());
                 let args_flat = args_flat.trim_end_matches(" ,").trim_end_matches(',').to_string();
+                // the same comparison with glued punctuation kept glued (`==` must not arrive as `= =`)
+                let ftj = t.parse::<TokenStream>().map(flat_joint).unwrap_or_default();
+                let args_j = flat_joint(ts.clone());
+                let args_j = args_j.trim_end_matches(" ,").trim_end_matches(',').to_string();
+                let joint_ok = args_j.is_empty() || ftj.contains(&args_j);
                 (
                     if has_pred { "bound" } else { "nobound" },
-                    if args_flat.is_empty() || ft.contains(&args_flat) { "verbatim" } else { "altered" },
+                    if !(args_flat.is_empty() || ft.contains(&args_flat)) {
+                        "altered"
+                    } else if !joint_ok {
+                        "reglued"
+                    } else {
+                        "verbatim"
+                    },
                 )
             }
             Exp::Err(_) => ("err", "err"),
